@@ -2869,7 +2869,10 @@ start:
     if (!rc) {
       cur->cn = lx->lower;
       lx->lower = 0;
+    } else if (lx->lower) {
+      _sblk_release(lx, &lx->lower);
     }
+    lx->dblk.addr = 0; // do not keep a copy of the database block between calls
   }
 
 finish:
